@@ -90,22 +90,36 @@ def reload_paths(ecdsa, curve, sk, full):
     wide = len("%x" % curve.curve.p()) > 2      # field of >= 2 bytes: compressed length differs from raw
     encs = ["uncompressed", "hybrid"] + (["compressed"] if wide else [])
     paths = {"none": lambda: vk}
+    H = sk.default_hashfunc          # every loader is told the key's default hash; data-level sign()/verify() rely on it
     for enc in ["raw"] + encs:
-        paths["vk-str-" + enc] = lambda enc=enc: VerifyingKey.from_string(vk.to_string(enc), curve)
+        paths["vk-str-" + enc] = lambda enc=enc: VerifyingKey.from_string(vk.to_string(enc), curve, hashfunc=H)
     for enc in encs:
-        paths["vk-der-" + enc] = lambda enc=enc: VerifyingKey.from_der(vk.to_der(enc))
-        paths["vk-pem-" + enc] = lambda enc=enc: VerifyingKey.from_pem(vk.to_pem(enc))
-    paths["sk-str"] = lambda: SigningKey.from_string(sk.to_string(), curve).get_verifying_key()
+        paths["vk-der-" + enc] = lambda enc=enc: VerifyingKey.from_der(vk.to_der(enc), hashfunc=H)
+        paths["vk-pem-" + enc] = lambda enc=enc: VerifyingKey.from_pem(vk.to_pem(enc), hashfunc=H)
+    paths["sk-str"] = lambda: SigningKey.from_string(sk.to_string(), curve, hashfunc=H).get_verifying_key()
     for fmt in ("ssleay", "pkcs8"):
         for enc in encs[:1] if not full else encs:
             paths["sk-der-%s-%s" % (fmt, enc)] = lambda fmt=fmt, enc=enc: SigningKey.from_der(
-                sk.to_der(enc, fmt)).get_verifying_key()
+                sk.to_der(enc, fmt), hashfunc=H).get_verifying_key()
             paths["sk-pem-%s-%s" % (fmt, enc)] = lambda fmt=fmt, enc=enc: SigningKey.from_pem(
-                sk.to_pem(enc, fmt)).get_verifying_key()
+                sk.to_pem(enc, fmt), hashfunc=H).get_verifying_key()
     paths["pickle-vk"] = lambda: pickle.loads(pickle.dumps(vk))
     paths["pickle-sk"] = lambda: pickle.loads(pickle.dumps(sk)).get_verifying_key()
-    paths["precomputed"] = lambda: _precomp(VerifyingKey.from_string(vk.to_string(), curve))
+    paths["precomputed"] = lambda: _precomp(VerifyingKey.from_string(vk.to_string(), curve, hashfunc=H))
     return paths
+
+
+def signer_paths(curve, sk):
+    """name -> the signing key obtained through a serialise/reload path, told the same default hash"""
+    from ecdsa import SigningKey
+    H = sk.default_hashfunc
+    return {"sk-str": lambda: SigningKey.from_string(sk.to_string(), curve, hashfunc=H),
+            "sk-der-ssleay": lambda: SigningKey.from_der(sk.to_der(format="ssleay"), hashfunc=H),
+            "sk-der-pkcs8": lambda: SigningKey.from_der(sk.to_der(format="pkcs8"), hashfunc=H),
+            "sk-pem-ssleay": lambda: SigningKey.from_pem(sk.to_pem(format="ssleay"), hashfunc=H),
+            "sk-pem-pkcs8": lambda: SigningKey.from_pem(sk.to_pem(format="pkcs8"), hashfunc=H),
+            "sk-pickle": lambda: pickle.loads(pickle.dumps(sk)),
+            "sk-secexp": lambda: SigningKey.from_secret_exponent(sk.privkey.secret_multiplier, curve, hashfunc=H)}
 
 
 def _precomp(vk):
@@ -151,6 +165,13 @@ def sign_events(args):
                 except BaseException as e:  # noqa
                     vks[name] = ("exc", "reload path %s raised %s" % (name, exc_name(e)))
             names = sorted(vks)
+            sks = {}
+            for name, f in signer_paths(curve, sk).items():
+                try:
+                    sks[name] = f()
+                except BaseException as e:  # noqa
+                    sks[name] = ("exc", "reload path %s raised %s" % (name, exc_name(e)))
+            snames = sorted(sks)
             rot = 0
             for k, digest, allow in itertools.product(ks, digests, allows):
                 outs, couts, checks = [], [], []
@@ -181,6 +202,12 @@ def sign_events(args):
                 # entry point sign() with the identity hash (hashes data -> digest)
                 name, enc, dec = plain[rot % 3]
                 s_ = record(outs, name, lambda: sk.sign(digest, hashfunc=IdHash, sigencode=enc, k=k, allow_truncate=allow))
+                # ... and sign() relying on the default hash, through a reloaded signing key
+                sname = snames[rot % len(snames)]
+                if isinstance(sks[sname], tuple):
+                    checks.append(sks[sname][1])
+                else:
+                    s_ = record(outs, name, lambda: sks[sname].sign(digest, sigencode=enc, k=k, allow_truncate=allow))
                 # verification of every produced signature: original key + one reloaded key (all when full)
                 for name, dec, sig in sigs:
                     use = names if full else ["none", names[rot % len(names)]]
@@ -201,6 +228,14 @@ def sign_events(args):
                             checks.append("True" if ok is True else "verify returned %r" % (ok,))
                         except BaseException as e:  # noqa
                             checks.append("%s from verify()" % exc_name(e))
+                        # verify() relying on the default hash of a reloaded key
+                        vn = names[(rot // 5) % len(names)]
+                        if not isinstance(vks[vn], tuple):
+                            try:
+                                ok = vks[vn].verify(sig, digest, sigdecode=dec, allow_truncate=allow)
+                                checks.append("True" if ok is True else "verify returned %r via %s" % (ok, vn))
+                            except BaseException as e:  # noqa
+                                checks.append("%s from verify() with the default hash of key path %s" % (exc_name(e), vn))
 
                 def uniq(lst):
                     seen = []
